@@ -42,6 +42,32 @@ def items():
     out.append(("list_target", "[lt_a, lt_b] = [1, 2]\n", {"lt_a", "lt_b"}, {}))
     out.append(("starred_target", "st_a, *st_rest = [1, 2, 3]\n", {"st_a", "st_rest"}, {}))
     out.append(("chained_assign", "ch_a = ch_b = 0\n", {"ch_a", "ch_b"}, {}))
+    # definitions placed after (and, in pairs, before) a module-level statement that control flow cannot pass, or only
+    # seems unable to pass (family added after the seeded change C07-unreachable-walk-yields-module: unreachable-code
+    # removal takes no preserve set, so in safe mode it must never see the module body)
+    tail = "def ab_fn_%s():\n    return 1\nAB_VALUE_%s = 1\nclass AbCls%s:\n    ab_attr = 1\n    def ab_m(self):\n        return 2\n"
+    blockers = {
+        "raise": "raise RuntimeError('stop')\n",
+        "assert_false": "assert False\n",
+        "assert_zero_msg": "assert 0, 'never'\n",
+        "while_true": "while True:\n    pass\n",
+        "while_one_no_break": "while 1:\n    print('spin')\n",
+        "if_else_raise": "import sys\nif sys.argv:\n    raise SystemExit(0)\nelse:\n    raise SystemExit(1)\n",
+        "if_true_raise": "if True:\n    raise SystemExit(0)\n",
+        "with_raise": "import contextlib\nwith contextlib.suppress(KeyError):\n    raise KeyError('k')\n",
+        "try_raise_finally": "try:\n    raise KeyError('k')\nfinally:\n    print('f')\n",
+        "for_raise": "for ab_i in (1, 2):\n    raise KeyError(ab_i)\n",
+        "sys_exit": "import sys\nsys.exit(0)\n",
+        "if_raise": "import sys\nif sys.argv:\n    raise SystemExit(0)\n",
+        "while_true_break": "while True:\n    break\n",
+        "try_raise_except": "try:\n    raise KeyError('k')\nexcept KeyError:\n    pass\n",
+    }
+    for k, code in blockers.items():
+        t = k.title().replace("_", "")
+        out.append(("after_blocker:%s" % k, code + tail % (k, k.upper(), t),
+                    {"ab_fn_%s" % k, "AB_VALUE_%s" % k.upper(), "AbCls%s" % t}, {"AbCls%s" % t: {"ab_attr", "ab_m"}}))
+    out.append(("nested_class", "class Outer:\n    class Meta:\n        k = 1\n    def om(self):\n        return 1\n", {"Outer"}, {"Outer": {"om"}}))  # the nested class itself is not part of the stated surface (methods and assigned attributes are)
+    out.append(("cls_body_blocker", "class Guarded:\n    g_a = 1\n    if g_a:\n        g_b = 2\n    def g_m(self):\n        return 1\n    g_c = 3\n", {"Guarded"}, {"Guarded": {"g_a", "g_m", "g_c"}}))
     return out
 
 
@@ -55,6 +81,10 @@ def modules(max_items):
                 continue
             if (":under" in a[0] or ":under" in b[0]) and not (b[0].startswith(("dupfuncs", "clsmembers:camel")) or a[0].startswith(("dupfuncs", "clsmembers:camel"))):
                 continue  # definitions named "_" are combined with two partners only (one root cause, see KF-C07-underscore)
+            if b[0].startswith("after_blocker"):
+                if not a[0].startswith("after_blocker"):  # the blocker goes FIRST: the partner's definitions follow it
+                    yield b[0] + "+" + a[0], b[1] + a[1], a[2] | b[2], {**a[3], **b[3]}
+                continue
             yield a[0] + "+" + b[0], a[1] + b[1], a[2] | b[2], {**a[3], **b[3]}
     if max_items >= 3:
         core = [i for i in its if i[0].split(":")[0] in ("func", "assign", "clsmembers", "dupfuncs", "class") and (":camel" in i[0] or ":snake" in i[0] or "dup" in i[0])]
